@@ -400,24 +400,21 @@ def build_cases(ctx, rng, sources, invalid, tier, budget):
 
 # ---------------------------------------------------------------- running
 
-def run_in_namespace(ctx, work, real_bin, cases, remap_cases=(), tag="w"):
+def run_in_namespace(ctx, work, real_bin, cases, tag="w"):
     """runs the cases with a pool of namespace workers; returns (setup note, error)"""
-    remap_cases = list(remap_cases)
-    nw = max(1, min(16, os.cpu_count() or 4, (len(cases) + 2) // 3 + (len(remap_cases) + 1) // 2))
+    nw = max(1, min(16, os.cpu_count() or 4, (len(cases) + 2) // 3))
     jobs = []
     for w in range(nw):
         wdir = os.path.join(work, "%s%02d" % (tag, w))
         os.makedirs(wdir, exist_ok=True)
         mine = cases[w::nw]
-        rmine = remap_cases[w::nw]
         job = {"work": wdir, "bin": real_bin, "outer_ns": os.readlink("/proc/self/ns/mnt"),
-               "cases": [{"id": c["id"], "argv_hex": [a.hex() for a in c["argv"]], "pre": c["pre"]} for c in mine],
-               "remap_cases": [{"id": c["id"], "spec": c["spec"], "layout": c["layout"], "salt": c["salt"]} for c in rmine]}
+               "cases": [{"id": c["id"], "argv_hex": [a.hex() for a in c["argv"]], "pre": c["pre"]} for c in mine]}
         jf = os.path.join(wdir, "job.json")
         json.dump(job, open(jf, "w"))
-        for c in mine + rmine:
+        for c in mine:
             c["out"] = os.path.join(wdir, "out", c["id"])
-        jobs.append((jf, len(mine) + len(rmine)))
+        jobs.append((jf, len(mine)))
 
     def one(j):
         jf, n = j
@@ -465,6 +462,13 @@ def case_input(c):
     return inp
 
 
+def count_by(it):
+    d = {}
+    for x in it:
+        d[x] = d.get(x, 0) + 1
+    return d
+
+
 def tail(b, n=300):
     return (b or b"").decode("utf-8", "replace")[-n:]
 
@@ -507,7 +511,7 @@ def judge_add(ctx, work, cases, escape_exe):
                 hits.append({"engine": ENGINE, "clause": "C17.cli_unit", "known_class": None, "input": case_input(c),
                              "observed": {"exit_code": rc, "timeout": c["meta"].get("timeout"), "unit_file": "missing" if c["unit"] is None else "written",
                                           "stdout": tail(c["stdout"]), "stderr": tail(c["stderr"]), "processes_at_timeout": c["meta"].get("timeout_processes")},
-                             "expected": "exit code 0 and /etc/systemd/system/totalmapper@.service written",
+                             "expected": "exit code 0 and a unit file (/etc/systemd/system/totalmapper@.service, or one new *.service file there) written by this run",
                              "note": "add_systemd_service did not install the unit for an argv the command line accepts"})
                 continue
             if len(c["unit"]) > 200000:
@@ -522,10 +526,18 @@ def judge_add(ctx, work, cases, escape_exe):
     if "CHECKER-FAILED" in text or "SUMMARY" not in text:
         return [], {}, [], "model-side checker (escape_check on the installed unit files) failed: " + text[-400:]
     summary = {}
+    n_outside = [0]
     for line in text.split("\n"):
         m = re.match(r"DIFF id=(\d+) tag=\S+ class=(\w+) pats=(\S*) impl=(\S+) model=(\S+)$", line)
         if m:
             c = by_id[m.group(1)]
+            # C17 speaks of the ExecStart line: a unit text that differs from the model's elsewhere only (Description= ...)
+            # is recorded, not judged; c17_check below still reads the whole real text the way systemd does
+            ex_i = [l for l in bytes.fromhex(m.group(4)).split(b"\n") if l.startswith(b"ExecStart=")]
+            ex_m = [l for l in bytes.fromhex(m.group(5)).split(b"\n") if l.startswith(b"ExecStart=")]
+            if ex_i == ex_m and len(ex_i) == 1:
+                n_outside[0] += 1
+                continue
             hits.append({"engine": ENGINE, "clause": "C17.cli_unit", "known_class": None, "input": case_input(c),
                          "observed": {"unit_file": bytes.fromhex(m.group(4)).decode("utf-8", "backslashreplace")},
                          "expected": {"unit_file": bytes.fromhex(m.group(5)).decode("utf-8", "backslashreplace")},
@@ -582,6 +594,9 @@ def judge_add(ctx, work, cases, escape_exe):
         "cli_unit_distinct_nontrivial_pattern_lists": len(distinct),
         "cli_saved_layouts_reloaded": n_c15,
         "cli_nonzero_exit_on_accepted_argv": n_exit_bad,
+        "cli_unit_text_differs_outside_execstart": n_outside[0],
+        "cli_installed_unit_files": count_by(str(c["meta"].get("unit_path")) for c in acc),
+        "cli_installed_layout_files": count_by(str(c["meta"].get("layout_path")) for c in acc),
         "cli_cases_by_family": fam,
         "cli_exclude_spellings": {"--exclude P": forms["sep"], "--exclude=P": forms["eq"]},
         "cli_stub_invocations": calls,
@@ -648,6 +663,7 @@ def remap_argv(spec):
     return {"all_keyboards": ["totalmapper", "remap", "--default-layout", "caps-for-movement", "--all-keyboards", "--verbose"] + ex,
             "dev_file": ["totalmapper", "remap", "--default-layout", "caps-for-movement", "--only-if-keyboard", "--verbose"] + ex +
                         [w for d in spec.get("dev_file_args", []) for w in ("--dev-file", d)],
+            "auto": ["totalmapper", "remap", "--default-layout", "caps-for-movement", "--auto-all-keyboards", "--verbose"] + ex,
             "list_keyboards": ["totalmapper", "list_keyboards"]}
 
 
@@ -669,117 +685,224 @@ def run_remap_groups(ctx, dirs, real_bin, listing_exe):
         return list(ex.map(one, dirs))
 
 
-def parse_listing(stderr, header):
-    """the ' * "<path>"[ (excluded)]' lines after `header`, up to the next line that is not one -> [[path, excluded]] or None"""
-    lines = stderr.split("\n")
-    if header not in lines:
-        return None
+def spec_blocks(text):
+    """the entries of a scenario text (the generator separates them by an empty line)"""
+    return [b for b in text.split("\n\n") if b.strip()]
+
+
+def make_rotations(base_lines, max_rot):
+    """base_lines: a listing-ns scenario (TEXT/SYS/DEV/ARG/EXC lines).  Returns [(k, lines)]: the same system with the
+    k-th entry of the device list rotated to the front, and, as --dev-file arguments, the node of every entry in the
+    same (rotated) order followed by the scenario's own odd arguments (symlinks, '//', missing nodes).  The loop opens
+    selected nodes in order and stops at the first failure, so each rotation shows whether ITS first entry is selected."""
+    text, sys_nodes, args, other = "", {}, [], []
+    for l in base_lines:
+        t = l.split(" ")
+        if t[0] == "TEXT":
+            text = bytes.fromhex(t[1]).decode("utf-8", "surrogateescape")
+        elif t[0] == "ARG":
+            args.append(bytes.fromhex(t[1]).decode("utf-8", "surrogateescape"))
+        elif t[0] in ("SYS", "DEV", "EXC"):
+            other.append(l)
+            if t[0] == "SYS" and len(t) > 4 and t[2] == "node":
+                sys_nodes[bytes.fromhex(t[1]).decode("utf-8", "surrogateescape")] = "/dev/" + bytes.fromhex(t[4]).decode("utf-8", "surrogateescape")
+    blocks = spec_blocks(text)
     out = []
-    for l in lines[lines.index(header) + 1:]:
-        m = re.match(r'^ \* "(.*)"( \(excluded\))?$', l)
-        if not m:
-            break
-        out.append([m.group(1), bool(m.group(2))])
-    return out
+    for k in range(min(len(blocks), max_rot) if blocks else 1):
+        rot = blocks[k:] + blocks[:k]
+        nodes = []
+        for b in rot:
+            m = re.search(r"^S: Sysfs=(.*)$", b, re.M)
+            n = sys_nodes.get(m.group(1)) if m else None
+            if n and n not in nodes:
+                nodes.append(n)
+        a2 = nodes + [a for a in args if a not in nodes]
+        rtext = ("\n\n".join(rot) + "\n\n") if rot else text
+        lines = ["TEXT " + rtext.encode("utf-8", "surrogateescape").hex()] + other + ["ARG " + a.encode("utf-8", "surrogateescape").hex() for a in a2]
+        if k == 0:
+            lines.append("OPT auto")
+        out.append((k, lines))
+    return out, len(blocks)
 
 
-def judge_modes(ctx, work, rng, real_bin, spec_paths, ra_lines, builtins):
-    """the three ways of naming devices on the same fabricated system -> (hits, stats, error)"""
-    rcases = [{"id": "m%04d" % i, "spec": sp, "layout": rng.choice(builtins) if builtins else "caps-for-movement", "salt": rng.randrange(3)}
-              for i, sp in enumerate(spec_paths)]
-    _, err = run_in_namespace(ctx, work, real_bin, [], rcases, tag="m")
-    if err:
-        return [], {}, err
-    hits = []
-    st = {"scenarios": 0, "all_vs_auto_compared": 0, "all_vs_dev_file_compared": 0, "dev_file_not_comparable": {}, "all_vs_listing_ns_compared": 0,
-          "selected_nodes": 0, "excluded_nodes": 0, "auto_seconds_max": 0.0, "auto_killed": 0}
-    for c in rcases:
-        try:
-            r = json.load(open(os.path.join(c["out"], "remap.json")))
-        except (OSError, ValueError):
-            return [], {}, "no result for remap scenario " + c["id"]
-        if r.get("setup_error"):
-            return [], {}, "namespace scenario setup failed: " + str(r["setup_error"])
-        st["scenarios"] += 1
-        spec = lst.read_spec(c["spec"])
-        A, D, U = r["all"], r.get("dev_file"), r["auto"]
-        la = parse_listing(A["stderr"], "Got the list of keyboards:")
-        lu = parse_listing(U["stderr"], "Got the current list of keyboards:")
-        st["auto_seconds_max"] = max(st["auto_seconds_max"], U.get("seconds", 0))
-        st["auto_killed"] += 0 if U.get("exited_by_itself") else 1
-
-        def hit(what, observed, expected, note):
-            hits.append({"engine": ENGINE, "clause": "C16.cli_modes_agree", "known_class": None,
-                         "input": {"kind": "remap", "what": what, "argv": {k: ["totalmapper"] + v for k, v in r["argv"].items()},
-                                   "device_list": spec.get("text"), "excludes": spec.get("excludes"), "fabricated_sys": spec.get("sys"),
-                                   "nodes": r.get("nodes"), "spec": spec.get("spec")},
-                         "observed": observed, "expected": expected, "note": note})
-        # (1) --all-keyboards vs --auto-all-keyboards: the same listing with the same flags, or both fail to list
-        st["all_vs_auto_compared"] += 1
-        if la != lu:
-            hit("all-keyboards vs auto-all-keyboards", {"all_keyboards": la if la is not None else (A["stdout"] + A["stderr"])[-300:],
-                                                        "auto_all_keyboards_first_round": lu if lu is not None else (U["stdout"] + U["stderr"])[-300:]},
-                "the same devices listed, the same ones flagged (excluded)",
-                "--all-keyboards and the first round of --auto-all-keyboards list/exclude different devices on the same system with the same patterns")
-        if la is not None:
-            st["selected_nodes"] += sum(1 for _, x in la if not x)
-            st["excluded_nodes"] += sum(1 for _, x in la if x)
-        # (2) the same command as run by tm-harness listing-ns on the same scenario (that one is compared with the model)
-        ra = ra_lines.get(os.path.basename(c["spec"]))
-        if ra is not None:
-            st["all_vs_listing_ns_compared"] += 1
-            mine = [[p_, x] for p_, x in la] if la is not None else None
-            if mine != ra:
-                hit("all-keyboards, two runs", {"this_run": mine, "listing_ns_run": ra}, "the same listing from the same command on the same fabricated system",
-                    "two runs of `remap --all-keyboards --verbose` over the same fabricated system disagree")
-        # (3) --dev-file <every node> --only-if-keyboard: comparable when no /sys lookup fails and sysfs paths are distinct
-        why = None
-        sysfs = re.findall(r"^S: Sysfs=(.*)$", spec.get("text", ""), re.M)
-        if D is None:
-            why = "no device node"
-        elif any(len(x) > 1 and x[1] in ("missing", "nouevent") for x in spec.get("sys", [])):
-            why = "a /sys lookup fails (list_input_devices looks up every device, list_keyboards only keyboards)"
-        elif len(set(sysfs)) != len(sysfs) or len([l for l in spec.get("text", "").split("\n") if l.startswith("I:")]) != len(sysfs):
-            why = "two entries share a sysfs path or an entry has none"
-        elif la is None:
-            why = "--all-keyboards did not list"
-        if why:
-            st["dev_file_not_comparable"][why] = st["dev_file_not_comparable"].get(why, 0) + 1
-            continue
-        st["all_vs_dev_file_compared"] += 1
-        sel_a = sorted(p_ for p_, x in la if not x)
-        if "Remapping " not in D["stderr"]:
-            sel_d = None
-        else:
-            sel_d = sorted(n for n in r["nodes"] if ("Skipping %s (" % n) not in D["stderr"] and ("Skipping %s because" % n) not in D["stderr"])
-        if sel_d != sel_a:
-            hit("all-keyboards vs dev-file", {"all_keyboards_selects": sel_a, "dev_file_only_if_keyboard_selects": sel_d if sel_d is not None else (D["stdout"] + D["stderr"])[-400:]},
-                "the same set of device nodes", "--all-keyboards and --dev-file <every node> --only-if-keyboard select different devices on the same system with the same patterns")
-    stats = {"cli_modes_scenarios": st["scenarios"], "cli_modes_all_vs_auto": st["all_vs_auto_compared"], "cli_modes_all_vs_dev_file": st["all_vs_dev_file_compared"],
-             "cli_modes_all_vs_listing_ns": st["all_vs_listing_ns_compared"], "cli_modes_dev_file_not_comparable": st["dev_file_not_comparable"],
-             "cli_modes_selected_nodes": st["selected_nodes"], "cli_modes_excluded_nodes": st["excluded_nodes"],
-             "cli_modes_auto_seconds_max": st["auto_seconds_max"], "cli_modes_auto_killed_after_first_round": st["auto_killed"]}
-    hits.sort(key=lambda h: len(h["input"].get("device_list") or ""))
-    return hits, stats, None
-
-
-def ra_listings(nsout):
-    """{spec basename: [[path, excluded]] | None} from the RA lines of a listing-ns output"""
+def open_lines(nsout):
+    """{spec basename: {"RAO": [names] | None, "RDO": .., "RUO": .., "RA": [[path, excluded]] | None, "RU": ..}} from a listing-ns output"""
     res, cur = {}, None
     for line in open(nsout, encoding="utf-8", errors="replace"):
         t = line.rstrip("\n").split(" ")
         if t[0] == "NS" and len(t) > 2:
-            cur = os.path.basename(t[2])
-        elif t[0] == "RA" and cur is not None:
+            cur = res.setdefault(os.path.basename(t[2]), {})
+        elif cur is not None and t[0] in ("RAO", "RDO", "RUO", "SAO", "SDO") and len(t) > 2:
+            try:
+                cur[t[0]] = None if t[2] == "-" else [bytes.fromhex(x).decode("utf-8", "replace") for x in t[3:3 + int(t[2])]]
+            except ValueError:
+                cur[t[0]] = None
+        elif cur is not None and t[0] in ("RA", "RU") and len(t) > 4:
             try:
                 n = int(t[4])
-                res[cur] = [[bytes.fromhex(t[5 + 2 * i]).decode("utf-8", "replace"), t[6 + 2 * i] == "1"] for i in range(n)] if int(t[3]) >= 0 else None
+                lst_ = [[bytes.fromhex(t[5 + 2 * i]).decode("utf-8", "replace"), t[6 + 2 * i] == "1"] for i in range(n)]
+                cur[t[0]] = lst_ if int(t[3]) >= 0 and int(t[3]) == sum(1 for _, x in lst_ if not x) else None
             except (ValueError, IndexError):
-                res[cur] = None
+                cur[t[0]] = None
+        elif cur is not None and t[0] == "RUT" and len(t) > 2:
+            cur["RUT"] = int(t[2]) if t[2].isdigit() else 0
     return res
 
 
-def judge_remap(ctx, work, rng, seed, n_scen, real_bin, listing_exe, builtins=()):
+def remap_input(spec, what, argv, extra=None):
+    inp = {"kind": "remap", "what": what, "argv": argv, "device_list": spec.get("text"), "excludes": spec.get("excludes"),
+           "dev_file_args": spec.get("dev_file_args"), "fabricated_sys": spec.get("sys"), "fabricated_dev": spec.get("dev"), "spec": spec.get("spec")}
+    if spec.get("observation"):
+        inp["observation"] = spec["observation"]
+    if extra:
+        inp.update(extra)
+    return inp
+
+
+def judge_specs(ctx, dirs, bases, real_bin, listing_exe):
+    """runs listing-ns + listing_check on the prepared scenario directories and judges what the REAL BINARY did.
+    bases: {base id: {"lines": base spec lines, "rots": [(k, spec basename)], "entries": n}} -> (hits, stats, error)"""
+    diffs, hs, summary = [], [], {}
+    opens = {}
+    for d, out, err in run_remap_groups(ctx, dirs, real_bin, listing_exe):
+        if err:
+            return [], {}, err
+        dd, hh, sm, _, nts = lst.parse_ns_out(out)
+        fails = [n for n in nts if n.startswith("NSFAIL")]
+        if fails:
+            return [], {}, "namespace setup of listing-ns failed: " + fails[0]
+        for k, v in sm.items():
+            summary[k] = summary.get(k, 0) + v
+        diffs += dd
+        hs += hh
+        opens.update(open_lines(os.path.join(d, "ns.out")))
+    # the verbose log is trusted only if it parsed and agreed with the opens in EVERY scenario of the run
+    diffs, hs, pol = lst.apply_log_policy(diffs, hs, summary)
+    hits = []
+    for x in diffs:
+        what = x["input"].get("what", "")
+        if "real-binary" not in what:
+            continue
+        argv = remap_argv(x["input"])
+        av = argv["list_keyboards"] if "list_keyboards" in what else argv["dev_file"] if "dev-file" in what else argv["auto"] if "auto-all" in what else argv["all_keyboards"]
+        hits.append({"engine": ENGINE, "clause": "C16.cli_excludes", "known_class": None, "input": remap_input(x["input"], what, av),
+                     "observed": {"real_binary": x["impl"]}, "expected": {"model": x["model"]},
+                     "note": "what the real binary does (the nodes it opens; secondarily what its verbose log lists) differs from the listing model's selection for the same fabricated system and patterns"})
+    for x in hs:
+        if "real-binary" not in str(x["input"].get("via")):
+            continue
+        argv = remap_argv(x["input"])
+        hits.append({"engine": ENGINE, "clause": "C16.cli_excludes", "known_class": None,
+                     "input": remap_input(x["input"], x["clause"], argv["dev_file"] if "devfile" in x["clause"] else argv["all_keyboards"]),
+                     "observed": x["observed"], "expected": x["expected"], "note": x.get("note", "") + " (real binary)"})
+    hits.sort(key=lambda h: len(h["input"].get("device_list") or ""))
+    # ---- the three ways of naming devices must open the same devices
+    st = {"bases": 0, "rotations": 0, "all_vs_auto": 0, "dev_vs_auto": 0, "dev_not_comparable": {}, "opened_all": 0, "opened_dev": 0, "opened_auto": 0,
+          "log_listing_compared": 0, "auto_ms_max": 0, "no_open_observation": 0}
+    log_ok = (summary.get("ns_log_unparsed_real", 0) + summary.get("ns_log_disagree_real", 0)) == 0
+    mhits = []
+    for bid, b in sorted(bases.items()):
+        r0 = opens.get(b["rots"][0][1], {}) if b["rots"] else {}
+        auto = r0.get("RUO")
+        st["auto_ms_max"] = max(st["auto_ms_max"], r0.get("RUT", 0))
+        if auto is None:
+            st["no_open_observation"] += 1
+            continue
+        st["bases"] += 1
+        st["rotations"] += len(b["rots"])
+        per = []
+        u_all, u_dev, dev_seen = set(), set(), False
+        for k, name in b["rots"]:
+            o = opens.get(name, {})
+            per.append({"rotation": k, "all_keyboards_opens": o.get("RAO"), "dev_file_opens": o.get("RDO")})
+            u_all |= set(o.get("RAO") or [])
+            if o.get("RDO") is not None:
+                dev_seen = True
+                u_dev |= set(o["RDO"])
+        complete = len(b["rots"]) >= b["entries"]
+        spec = lst.read_spec(b["path0"])
+        argv = remap_argv(spec)
+        st["opened_all"] += len(u_all); st["opened_dev"] += len(u_dev); st["opened_auto"] += len(set(auto))
+
+        def hit(what, note, basis="open"):
+            mhits.append({"engine": ENGINE, "clause": "C16.cli_modes_agree", "known_class": None, "basis": basis,
+                          "input": remap_input(spec, what, {"all_keyboards": argv["all_keyboards"], "dev_file": argv["dev_file"], "auto_all_keyboards": argv["auto"]},
+                                               {"base_spec": b["lines"], "rotations": len(b["rots"]), "entries": b["entries"]}),
+                          "observed": {"opened_by_all_keyboards_over_the_rotations": sorted(u_all), "opened_by_auto_all_keyboards": sorted(set(auto)),
+                                       "opened_by_dev_file_over_the_rotations": sorted(u_dev) if dev_seen else None, "per_rotation": per},
+                          "expected": "the same set of device nodes (each rotation puts another entry first; --all-keyboards and --dev-file open the first selected node, --auto-all-keyboards all of them)",
+                          "note": note})
+        st["all_vs_auto"] += 1
+        if not (u_all <= set(auto)) or (complete and u_all != set(auto)):
+            hit("all-keyboards vs auto-all-keyboards", "--all-keyboards (over the rotations of the device list) and --auto-all-keyboards open different devices on the same system with the same patterns")
+        why = None
+        sysfs = re.findall(r"^S: Sysfs=(.*)$", spec.get("text", ""), re.M)
+        if not dev_seen:
+            why = "no --dev-file run"
+        elif any(len(x) > 1 and x[1] in ("missing", "nouevent") for x in spec.get("sys", [])):
+            why = "a /sys lookup fails (list_input_devices looks up every device, list_keyboards only keyboards)"
+        elif len(set(sysfs)) != len(sysfs) or b["entries"] != len(sysfs):
+            why = "two entries share a sysfs path or an entry has none"
+        if why:
+            st["dev_not_comparable"][why] = st["dev_not_comparable"].get(why, 0) + 1
+        else:
+            st["dev_vs_auto"] += 1
+            if not (u_dev <= set(auto)) or (complete and u_dev != set(auto)):
+                hit("dev-file vs auto-all-keyboards", "--dev-file <every node> --only-if-keyboard (over the rotations) and --auto-all-keyboards open different devices on the same system with the same patterns")
+        # secondary: the two logs list the same devices with the same flags (only when every log of the run was usable)
+        if log_ok and r0.get("RA") is not None and r0.get("RU") is not None:
+            st["log_listing_compared"] += 1
+            if r0["RA"] != r0["RU"]:
+                mhits.append({"engine": ENGINE, "clause": "C16.cli_modes_agree", "known_class": None, "basis": "log",
+                              "input": remap_input(spec, "all-keyboards vs auto-all-keyboards (verbose log)", {"all_keyboards": argv["all_keyboards"], "auto_all_keyboards": argv["auto"]},
+                                                   {"base_spec": b["lines"], "rotations": len(b["rots"]), "entries": b["entries"]}),
+                              "observed": {"all_keyboards_lists": r0["RA"], "auto_all_keyboards_first_round_lists": r0["RU"]},
+                              "expected": "the same devices listed, the same ones flagged (excluded)",
+                              "note": "the verbose logs of --all-keyboards and --auto-all-keyboards (both well-formed and consistent with what the runs opened) flag different devices"})
+    mhits.sort(key=lambda h: len(h["input"].get("device_list") or ""))
+    stats = {"cli_remap_scenarios": len(bases), "cli_remap_runs_of_listing_ns": summary.get("ns_real_binary_scenarios", 0),
+             "cli_remap_rotations": sum(len(b["rots"]) for b in bases.values()),
+             "cli_remap_comparisons": summary.get("ns_comparisons", 0) + st["all_vs_auto"] + st["dev_vs_auto"] + st["log_listing_compared"],
+             "cli_remap_open_observations": summary.get("ns_open_observations", 0),
+             "cli_remap_nodes_opened": summary.get("ns_selected_nodes", 0),
+             "cli_verbose_log_used": pol["verbose_log_observations_used"], "cli_verbose_log_unparsed": pol["verbose_log_unparsed"],
+             "cli_verbose_log_contradicting_the_opens": pol["verbose_log_contradicting_the_opens"],
+             "cli_log_based_judgements_dropped": pol["log_based_judgements_dropped"],
+             "cli_list_keyboards_output_unparsed": summary.get("ns_list_output_unparsed", 0),
+             "cli_modes_scenarios": st["bases"], "cli_modes_all_vs_auto": st["all_vs_auto"], "cli_modes_dev_file_vs_auto": st["dev_vs_auto"],
+             "cli_modes_dev_file_not_comparable": st["dev_not_comparable"], "cli_modes_nodes_opened": {"all_keyboards_over_rotations": st["opened_all"],
+                                                                                                     "dev_file_over_rotations": st["opened_dev"], "auto_all_keyboards": st["opened_auto"]},
+             "cli_modes_log_listings_compared": st["log_listing_compared"], "cli_modes_auto_ms_max": st["auto_ms_max"],
+             "cli_modes_without_open_observation": st["no_open_observation"]}
+    return hits + mhits, stats, None
+
+
+def prepare_remap(work, bases_lines, max_rot):
+    """writes the rotated scenarios into up to 8 group directories -> (dirs, bases)"""
+    total = sum(min(max_rot, max(1, len(spec_blocks(next((bytes.fromhex(l[5:]).decode("utf-8", "replace") for l in ls if l.startswith("TEXT ")), ""))))) for ls in bases_lines)
+    ng = max(1, min(8, total))
+    dirs = []
+    for g in range(ng):
+        d = os.path.join(work, "c16", "g%02d" % g)
+        os.makedirs(d, exist_ok=True)
+        dirs.append(d)
+    bases, j = {}, 0
+    for i, ls in enumerate(bases_lines):
+        rots, n_ent = make_rotations(ls, max_rot)
+        b = {"lines": ls, "rots": [], "entries": n_ent}
+        for k, lines in rots:
+            name = "%04d-r%d.spec" % (i, k)
+            path = os.path.join(dirs[j % ng], name)
+            j += 1
+            open(path, "w", encoding="ascii").write("\n".join(lines) + "\n")
+            b["rots"].append((k, name))
+            if k == 0:
+                b["path0"] = path
+        bases["%04d" % i] = b
+    return dirs, bases
+
+
+def judge_remap(ctx, work, rng, seed, n_scen, max_rot, real_bin, listing_exe):
     """-> (hits, stats, samples, error)"""
     gdir = os.path.join(work, "c16gen")
     rc, out, _ = ctx["sh"]([ctx["harness"], "listing-gen", "--out", gdir, "--seed", str(seed), "--tier", "quick", "--repo", ctx["repo"], "--shards", "1",
@@ -787,59 +910,16 @@ def judge_remap(ctx, work, rng, seed, n_scen, real_bin, listing_exe, builtins=()
     specs = sorted(glob.glob(os.path.join(gdir, "ns", "*.spec")))
     if rc != 0 or not specs:
         return [], {}, [], "harness listing-gen failed (rc=%d): %s" % (rc, out[-300:])
-    ng = max(1, min(8, len(specs)))
-    dirs = []
-    n_pats = 0
-    for g in range(ng):
-        d = os.path.join(work, "c16", "g%02d" % g)
-        os.makedirs(d, exist_ok=True)
-        dirs.append(d)
-    for i, s in enumerate(specs):
+    n_pats, bases_lines = 0, []
+    for s in specs:
         n_pats += len(rewrite_excludes(rng, s))
-        shutil.move(s, os.path.join(dirs[i % ng], os.path.basename(s)))
-    hits, summary, notes, n_real = [], {}, [], 0
-    for d, out, err in run_remap_groups(ctx, dirs, real_bin, listing_exe):
-        if err:
-            return [], {}, [], err
-        diffs, hs, sm, _, nts = lst.parse_ns_out(out)
-        fails = [n for n in nts if n.startswith("NSFAIL")]
-        if fails:
-            return [], {}, [], "namespace setup of listing-ns failed: " + fails[0]
-        for k, v in sm.items():
-            summary[k] = summary.get(k, 0) + v
-        for x in diffs:
-            what = x["input"].get("what", "")
-            if "real-binary" not in what:
-                continue
-            argv = remap_argv(x["input"])
-            hits.append({"engine": ENGINE, "clause": "C16.cli_excludes", "known_class": None,
-                         "input": {"kind": "remap", "what": what, "argv": argv["list_keyboards"] if "list_keyboards" in what else argv["dev_file"] if "dev-file" in what else argv["all_keyboards"],
-                                   "device_list": x["input"].get("text"), "excludes": x["input"].get("excludes"), "dev_file_args": x["input"].get("dev_file_args"),
-                                   "fabricated_sys": x["input"].get("sys"), "fabricated_dev": x["input"].get("dev"), "spec": x["input"].get("spec")},
-                         "observed": {"real_binary_reports": x["impl"]}, "expected": {"model": x["model"]},
-                         "note": "what the real binary reports as listed/excluded/selected differs from the listing model for the same fabricated system and patterns"})
-        for x in hs:
-            if "real-binary" not in str(x["input"].get("via")):
-                continue
-            argv = remap_argv(x["input"])
-            hits.append({"engine": ENGINE, "clause": "C16.cli_excludes", "known_class": None,
-                         "input": {"kind": "remap", "what": x["clause"], "argv": argv["dev_file"] if "devfile" in x["clause"] else argv["all_keyboards"],
-                                   "device_list": x["input"].get("text"), "excludes": x["input"].get("excludes"), "dev_file_args": x["input"].get("dev_file_args"),
-                                   "fabricated_sys": x["input"].get("sys"), "fabricated_dev": x["input"].get("dev"), "spec": x["input"].get("spec")},
-                         "observed": x["observed"], "expected": x["expected"], "note": x.get("note", "") + " (real binary)"})
-    stats = {"cli_remap_scenarios": summary.get("ns_real_binary_scenarios", 0), "cli_remap_exclude_patterns": n_pats,
-             "cli_remap_comparisons": summary.get("ns_comparisons", 0), "cli_remap_selected_nodes": summary.get("ns_selected_nodes", 0)}
-    hits.sort(key=lambda h: len(h["input"].get("device_list") or ""))
-    # the three ways of naming devices, on the same scenarios
-    ra = {}
-    for d in dirs:
-        ra.update(ra_listings(os.path.join(d, "ns.out")))
-    mhits, mstats, err = judge_modes(ctx, work, rng, real_bin, sorted(glob.glob(os.path.join(work, "c16", "g*", "*.spec"))), ra, list(builtins))
+        bases_lines.append([l for l in open(s, encoding="utf-8").read().split("\n") if l])
+    dirs, bases = prepare_remap(work, bases_lines, max_rot)
+    hits, stats, err = judge_specs(ctx, dirs, bases, real_bin, listing_exe)
     if err:
         return [], {}, [], err
-    stats.update(mstats)
-    stats["cli_remap_comparisons"] += mstats["cli_modes_all_vs_auto"] + mstats["cli_modes_all_vs_dev_file"] + mstats["cli_modes_all_vs_listing_ns"]
-    return hits + mhits, stats, [], None
+    stats["cli_remap_exclude_patterns"] = n_pats
+    return hits, stats, [], None
 
 
 # ---------------------------------------------------------------- entry points
@@ -931,9 +1011,8 @@ def run(ctx):
             return done(err)
         t_add = time.time() - ta
         tr = time.time()
-        n_scen = (200 if thorough else 8) * mult
-        rhits, rstats, _, err = judge_remap(ctx, work, rng, seed + (7919 if mult > 1 else 0), n_scen, real_bin, listing_exe,
-                                            notes.get("builtins_listed_by_the_binary") or [])
+        n_scen = (120 if thorough else 6) * mult
+        rhits, rstats, _, err = judge_remap(ctx, work, rng, seed + (7919 if mult > 1 else 0), n_scen, 8 if thorough else 6, real_bin, listing_exe)
         if err:
             return done(err)
         t_remap = time.time() - tr
@@ -1027,39 +1106,25 @@ def replay(ctx, rp):
             print("%s fails: observed=%s expected=%s" % (h["clause"], json.dumps(h["observed"], ensure_ascii=True)[:900], json.dumps(h["expected"], ensure_ascii=True)[:900]))
         print("REPRODUCED" if hits else "NOT REPRODUCED on the current tree")
     else:
-        d = os.path.join(work, "c16", "g00")
-        os.makedirs(d)
-        open(os.path.join(d, "0000.spec"), "w", encoding="utf-8").write("\n".join(inp.get("spec") or []) + "\n")
+        if inp.get("base_spec"):
+            dirs, bases = prepare_remap(work, [inp["base_spec"]], 8)
+        else:
+            d = os.path.join(work, "c16", "g00")
+            os.makedirs(d)
+            path = os.path.join(d, "0000-r0.spec")
+            open(path, "w", encoding="utf-8").write("\n".join(inp.get("spec") or []) + "\n")
+            dirs, bases = [d], {"0000": {"lines": inp.get("spec") or [], "rots": [(0, "0000-r0.spec")], "entries": 1 << 30, "path0": path}}
         print("device list:\n%s" % inp.get("device_list"))
         print("--exclude: %s   --dev-file: %s" % (json.dumps(inp.get("excludes")), json.dumps(inp.get("dev_file_args"))))
-        n = 0
-        for _, out, err in run_remap_groups(ctx, [d], real_bin, listing_exe):
-            if err:
-                print("run failed: " + err)
-                continue
-            diffs, hs, _, _, notes = lst.parse_ns_out(out)
-            for x in diffs:
-                if "real-binary" in x["input"].get("what", ""):
-                    n += 1
-                    print("DIFF %s: real binary=%s model=%s" % (x["input"].get("what"), json.dumps(x["impl"], ensure_ascii=False), json.dumps(x["model"], ensure_ascii=False)))
-            for x in hs:
-                if "real-binary" in str(x["input"].get("via")):
-                    n += 1
-                    print("HIT %s: observed=%s expected=%s" % (x["clause"], x["observed"], x["expected"]))
-        # the three ways of naming devices
-        av = inp.get("argv")
-        av = av.get("all", []) if isinstance(av, dict) else (av or [])
-        lay = [av[i + 1] for i in range(len(av) - 1) if av[i] == "--default-layout"] or ["caps-for-movement"]
-        nsout = os.path.join(d, "ns.out")
-        mh, ms, err = judge_modes(ctx, work, random.Random(0), real_bin, [os.path.join(d, "0000.spec")], ra_listings(nsout) if os.path.exists(nsout) else {}, lay[:1])
+        hits, stats, err = judge_specs(ctx, dirs, bases, real_bin, listing_exe)
         if err:
-            print("three-modes run failed: " + err)
-        for h in mh:
-            n += 1
-            print("HIT %s (%s): observed=%s expected=%s" % (h["clause"], h["input"]["what"], json.dumps(h["observed"], ensure_ascii=True)[:900], json.dumps(h["expected"])))
+            print("run failed: " + err)
+        for h in hits:
+            print("HIT %s (%s; observation: %s): observed=%s expected=%s" % (h["clause"], h["input"].get("what"), h.get("basis") or h["input"].get("observation"),
+                                                                          json.dumps(h["observed"], ensure_ascii=True)[:900], json.dumps(h["expected"], ensure_ascii=True)[:300]))
         if not err:
-            print("three modes: %s" % json.dumps({k: v for k, v in ms.items() if k != "cli_modes_dev_file_not_comparable" or v}))
-        print("REPRODUCED" if n else "NOT REPRODUCED on the current tree")
+            print("run: %s" % json.dumps({k: v for k, v in stats.items() if not isinstance(v, dict) or v}))
+        print("REPRODUCED" if hits else "NOT REPRODUCED on the current tree")
     print("recorded observed: %s" % json.dumps(rp.get("observed"), ensure_ascii=True)[:600])
     shutil.rmtree(work, ignore_errors=True)
     for x in created:        # the file first, then the directories made for it, innermost first
